@@ -366,6 +366,31 @@ func monotraceMain(args []string) int {
 		w.Write(b)
 		w.WriteByte('\n')
 	}
+	// large files that carry a complete small archive / document somewhere after an unknown header and
+	// a long unrelated body (signatures anchored at the END of the header move as the limit grows)
+	{
+		small, err := buildZip([]zipEntry{{"manifest.json", 40, 0}, {"payload.bin", 120, 0}}, false, false, rng, nil)
+		if err == nil {
+			bigLimits := []int{32768, 65536, 65557, 70000, 131072, 262144, 1 << 20}
+			saved := limits
+			limits = append(append([]int{}, limits...), bigLimits...)
+			filler := make([]byte, 200000)
+			rng.Read(filler)
+			for i := range filler {
+				if filler[i] == 'P' { // no accidental zip signatures
+					filler[i] = 'Q'
+				}
+			}
+			for _, inner := range [][]byte{small, data[0]} {
+				for _, off := range []int{64, 512, 3000} {
+					head := bytes.Repeat([]byte{0x07, 0xF3, 0x99, 0xC2}, off/4) // no format of the tree starts like this
+					in := append(append(append([]byte{}, head...), inner...), filler...)
+					emitSeries(fmt.Sprintf("embedded@%d+200KB", off), exact(in))
+				}
+			}
+			limits = saved
+		}
+	}
 	for i, d := range data {
 		tails := map[string][]byte{"text": bytes.Repeat([]byte("lorem ipsum dolor sit amet, \n"), 300), "nul": make([]byte, 8192),
 			"nl": bytes.Repeat([]byte("\nsecond line of a line-oriented format\n"), 200), "dash": append([]byte("-WB_MC1.0\n"), make([]byte, 4096)...)}
